@@ -780,9 +780,141 @@ fn exhaustive(pc: &PropCtx, sub: &str, tree: &[String], workers: usize, quit_at:
     runs
 }
 
+// ------------------------------------------------------- concurrent_walks ---
+
+/// Subcheck `concurrent_walks`: two parallel traversals alive in one process. Walk B never quits and must
+/// hand out every entry exactly once, whatever walk A (whose visitor quits at once) does meanwhile. Not
+/// scheduled by the controller (the threads run freely, the yield hook is off); the overlap is forced:
+/// with `hold`, B's first visitor call waits until A has quit and returned.
+#[derive(Clone, Debug, Serialize, Deserialize)]
+pub struct TwoWalks {
+    pub tree: Vec<String>,
+    pub workers: usize,
+    pub other_workers: usize,
+    pub hold: bool,
+}
+
+pub fn gen_two_walks(t: &mut Tape) -> TwoWalks {
+    TwoWalks { tree: gen_tree(t), workers: 2 + t.below(3), other_workers: 2 + t.below(3), hold: !t.chance(1, 4) }
+}
+
+fn materialise(base: &std::path::Path, tree: &[String]) {
+    std::fs::create_dir_all(base).unwrap();
+    for p in tree {
+        let full = base.join(p.trim_end_matches(['/', '@']));
+        if p.ends_with('@') {
+            if let Some(parent) = full.parent() {
+                std::fs::create_dir_all(parent).unwrap();
+            }
+            let _ = std::os::unix::fs::symlink("no-such-target", &full);
+        } else if p.ends_with('/') {
+            std::fs::create_dir_all(&full).unwrap();
+        } else {
+            if let Some(parent) = full.parent() {
+                std::fs::create_dir_all(parent).unwrap();
+            }
+            std::fs::write(&full, b"x").unwrap();
+        }
+    }
+}
+
+pub fn check_two_walks(c: &TwoWalks) -> Verdict {
+    if c.tree.iter().any(|p| p.ends_with('@')) {
+        return Verdict::Reject("error entries are the scheduled subcheck's subject");
+    }
+    let _g = RUN_LOCK.lock().unwrap_or_else(|e| e.into_inner());
+    let dir = TempDir::new_in(scratch_base(), "c07w");
+    let root_b = dir.path.join("b");
+    let root_a = dir.path.join("a");
+    materialise(&root_b, &c.tree);
+    materialise(&root_a, &["x/".to_string(), "x/1".to_string(), "x/2".to_string(), "y".to_string(), "z/w".to_string()]);
+    let visited: Arc<Mutex<Vec<String>>> = Arc::new(Mutex::new(vec![]));
+    let (release_tx, release_rx) = std::sync::mpsc::channel::<()>();
+    let release_rx = Arc::new(Mutex::new(Some(release_rx)));
+    let (started_tx, started_rx) = std::sync::mpsc::channel::<()>();
+    let (done_tx, done_rx) = std::sync::mpsc::channel::<()>();
+    let hold = c.hold;
+    let nb = c.workers.max(1);
+    let b = {
+        let visited = visited.clone();
+        let root_b = root_b.clone();
+        std::thread::spawn(move || {
+            let mut wb = WalkBuilder::new(&root_b);
+            wb.standard_filters(false).threads(nb);
+            wb.build_parallel().run(|| {
+                let visited = visited.clone();
+                let root_b = root_b.clone();
+                let release_rx = release_rx.clone();
+                let started_tx = started_tx.clone();
+                Box::new(move |ent| {
+                    if hold {
+                        // whoever gets here first waits for walk A to be over
+                        if let Some(rx) = release_rx.lock().unwrap().take() {
+                            let _ = started_tx.send(());
+                            let _ = rx.recv_timeout(Duration::from_secs(20));
+                        }
+                    }
+                    if let Ok(e) = &ent {
+                        let name = e.path().strip_prefix(&root_b).map(|p| p.to_string_lossy().to_string()).unwrap_or_default();
+                        visited.lock().unwrap().push(name);
+                    }
+                    WalkState::Continue
+                })
+            });
+            let _ = done_tx.send(());
+        })
+    };
+    if hold {
+        let _ = started_rx.recv_timeout(Duration::from_secs(20));
+    }
+    // walk A: quits at its first entry
+    let na = c.other_workers.max(1);
+    let a = std::thread::spawn(move || {
+        let mut wa = WalkBuilder::new(&root_a);
+        wa.standard_filters(false).threads(na);
+        wa.build_parallel().run(|| Box::new(|_| WalkState::Quit));
+    });
+    let a_done = {
+        let t0 = Instant::now();
+        while !a.is_finished() && t0.elapsed() < Duration::from_secs(20) {
+            std::thread::sleep(Duration::from_millis(1));
+        }
+        a.is_finished()
+    };
+    let _ = release_tx.send(());
+    let b_done = done_rx.recv_timeout(Duration::from_secs(30)).is_ok();
+    if a_done {
+        let _ = a.join();
+    }
+    if b_done {
+        let _ = b.join();
+    }
+    let describe = |msg: String| Fail::new(format!("{msg}\n case: {}\n visited by walk B: {:?}", serde_json::to_string(c).unwrap_or_default(), visited.lock().unwrap()));
+    if !a_done || !b_done {
+        return Verdict::Fail(describe(format!("a traversal did not end (walk A ended: {a_done}, walk B ended: {b_done})")).fact("non-termination"));
+    }
+    let mut got = visited.lock().unwrap().clone();
+    got.sort();
+    let want = expected_paths(&c.tree);
+    if let Some(w) = got.windows(2).find(|w| w[0] == w[1]) {
+        return Verdict::Fail(describe(format!("walk B handed {:?} to a visitor twice", w[0])).fact("duplicate"));
+    }
+    if got != want {
+        let missing: Vec<&String> = want.iter().filter(|w| !got.contains(w)).collect();
+        return Verdict::Fail(
+            describe(format!("walk B (whose visitors never quit) was handed {} of {} entries while another traversal in the same process quit; missing {missing:?}", got.len(), want.len()))
+                .fact("lost-or-extra"),
+        );
+    }
+    let mut info = Info::new(want.len() >= 3);
+    info.class_if(c.hold, "other_walk_quit_while_this_one_was_held_at_its_first_entry");
+    info.class_if(!c.hold, "both_walks_running_freely");
+    Verdict::Pass(info)
+}
+
 pub fn run(pc: &PropCtx) {
     pc.rule(
-        "real WalkParallel::visit with 2-4 real worker threads over small generated trees; each worker blocks at every hooked synchronisation point (start, exit, deque push, pop, steal, active-counter decrement/increment, quit flag read/write, idle sleep) until a controller grants the turn, so the interleaving is a function of the generated chooser: (i) random choice vectors (0 = no preemption), (ii) PCT-style priorities with up to 3 change points, (iii) exhaustive enumeration of all schedules with at most p preemptions on the smallest trees; visitor Quit injected at generated visit indices. Oracle (history invariants): without an effective quit every entry of the tree is visited exactly once; never a duplicate; termination: if every live worker sits at the idle point with no push it has not yet seen, no continuation can progress - confirmed by releasing the threads for 2 s before it is reported. Non-trivial = the schedule contains a deactivate and a later successful receive (activate); distinct by hash",
+        "real WalkParallel::visit with 2-4 real worker threads over small generated trees; each worker blocks at every hooked synchronisation point (start, exit, deque push, pop, steal, active-counter decrement/increment, quit flag read/write, idle sleep) until a controller grants the turn, so the interleaving is a function of the generated chooser: (i) random choice vectors (0 = no preemption), (ii) PCT-style priorities with up to 3 change points, (iii) exhaustive enumeration of all schedules with at most p preemptions on the smallest trees; visitor Quit injected at generated visit indices. Oracle (history invariants): without an effective quit every entry of the tree is visited exactly once; never a duplicate; termination: if every live worker sits at the idle point with no push it has not yet seen, no continuation can progress - confirmed by releasing the threads for 2 s before it is reported. Subcheck concurrent_walks (not scheduled, threads run freely): a second parallel traversal in the same process whose visitor quits at once, while the first is held at its first entry or runs freely; the first must still hand out every entry exactly once. Non-trivial = the schedule contains a deactivate and a later successful receive (activate); distinct by hash",
     );
     pc.assume("interleavings inside crossbeam-deque operations and weak-memory effects are not explored; each hooked operation is atomic under the controller");
     pc.set_shrink_iters(120);
@@ -807,11 +939,17 @@ pub fn run(pc: &PropCtx) {
     pc.bound("exhaustive_preemption_bound", serde_json::json!(p));
     pc.bound("exhaustive_schedules_run", serde_json::json!(total));
     pc.bound("exhaustive_cap_per_configuration", serde_json::json!(cap));
+    let two = pc.tier.pick(150, 3_000);
+    pc.run_tape("concurrent_walks", two, (16, 120), gen_two_walks, check_two_walks);
     pc.require_class("random_schedules:steal_after_idle(activate)", n as u64 / 10);
     pc.require_class("random_schedules:quit_took_effect", n as u64 / 20);
 }
 
-pub fn replay(_pc: &PropCtx, _sub: &str, case: &serde_json::Value) -> Result<Verdict, String> {
+pub fn replay(_pc: &PropCtx, sub: &str, case: &serde_json::Value) -> Result<Verdict, String> {
+    if sub == "concurrent_walks" {
+        let c: TwoWalks = serde_json::from_value(case.clone()).map_err(|e| e.to_string())?;
+        return Ok(check_two_walks(&c));
+    }
     let c: Case = serde_json::from_value(case.clone()).map_err(|e| e.to_string())?;
     Ok(check(&c))
 }
